@@ -35,6 +35,25 @@ struct Inner {
     clients: DashMap<EndpointId, ClientState>,
     /// Map of which client has sent where
     sent_to: DashMap<EndpointId, HashSet<EndpointId>>,
+    /// Connections that are being set up (admitted by access control, or about to be) but
+    /// are not registered yet. The flag records a disconnect request that arrived in that
+    /// window, so that [`Clients::register`] can apply it.
+    admitting: DashMap<ConnectionId, (EndpointId, bool)>,
+}
+
+/// Marks a connection as being set up, see [`Clients::begin_admission`].
+///
+/// Removes the mark when dropped.
+#[derive(Debug)]
+pub(super) struct AdmissionGuard {
+    clients: Clients,
+    connection_id: ConnectionId,
+}
+
+impl Drop for AdmissionGuard {
+    fn drop(&mut self) {
+        self.clients.0.admitting.remove(&self.connection_id);
+    }
 }
 
 #[derive(Debug)]
@@ -67,6 +86,24 @@ impl Clients {
         n0_future::join_all(clients.map(|(_, state)| state.shutdown_all())).await;
     }
 
+    /// Announces a connection that is about to be admitted and registered.
+    ///
+    /// A [`Clients::disconnect`] request for the connection that arrives before
+    /// [`Clients::register`] is remembered and applied on registration, instead of being lost.
+    pub(super) fn begin_admission(
+        &self,
+        endpoint_id: EndpointId,
+        connection_id: ConnectionId,
+    ) -> AdmissionGuard {
+        self.0
+            .admitting
+            .insert(connection_id, (endpoint_id, false));
+        AdmissionGuard {
+            clients: self.clone(),
+            connection_id,
+        }
+    }
+
     /// Builds the client handler and starts the read & write loops for the connection.
     ///
     /// Once the client disconnects, the [`OnDisconnectGuard`] set in `config` will be dropped,
@@ -78,7 +115,12 @@ impl Clients {
         let endpoint_id = client_config.guard.endpoint_id;
         trace!(remote_endpoint = %endpoint_id.fmt_short(), "registering client");
 
+        let connection_id = client_config.guard.connection_id;
         let client = Client::new(client_config, self, metrics.clone());
+        if let Some((_, (_, true))) = self.0.admitting.remove(&connection_id) {
+            // Disconnected while it was being set up: shut down right away.
+            client.start_shutdown();
+        }
         match self.0.clients.entry(endpoint_id) {
             dashmap::Entry::Occupied(mut entry) => {
                 let state = entry.get_mut();
@@ -180,13 +222,23 @@ impl Clients {
     /// Shutdown happens asynchronously: each per-connection actor exits its run
     /// loop and unregisters itself after this call returns.
     pub fn disconnect(&self, endpoint_id: EndpointId, connection_id: Option<ConnectionId>) -> bool {
+        // Connections still being set up: remember the request for `register`.
+        let mut found_admitting = false;
+        for mut entry in self.0.admitting.iter_mut() {
+            let matches = entry.value().0 == endpoint_id
+                && connection_id.is_none_or(|id| id == *entry.key());
+            if matches {
+                entry.value_mut().1 = true;
+                found_admitting = true;
+            }
+        }
         let Some(state) = self.0.clients.get(&endpoint_id) else {
-            return false;
+            return found_admitting;
         };
         let mut clients = state.inactive.iter().chain([&state.active]);
         if let Some(id) = connection_id {
             let Some(client) = clients.find(|c| c.connection_id() == id) else {
-                return false;
+                return found_admitting;
             };
             client.start_shutdown();
         } else {
